@@ -306,6 +306,43 @@ CLAIMED = {
              "inside a decompressed payload is covered by proof only); harness and driver.",
         technique="Lean 4 proof over access-level decoder models + T-diff under ASan / guard page / kill timer",
     ),
+    "C06": dict(
+        text="Lean 4 proofs about an acceptor of a group member's own request/outcome history (model of "
+             "GroupCoordinator: coordinator lookup, perform_group_join, sync, heartbeat, commit, leave). In every "
+             "accepted history (1) every JoinGroup carries exactly the configured strategies in order; (2) a JoinGroup "
+             "success is followed, among JoinGroup/SyncGroup requests, by the SyncGroup of that generation and member "
+             "id unless a fault or subscription change intervenes; (3) a settled member with error-free replies sends "
+             "only Heartbeat/OffsetCommit/OffsetFetch. The set simulation run by the check is proved to decide "
+             "acceptance. The real members' histories (probe around client.send, simulated coordinator with seeded "
+             "faults, 1-4 members, 1-3 assignors, JoinGroup v0-v5) are validated by the acceptor on every run, and the "
+             "statements are also evaluated on the wire. PARTIAL: convergence is proved for a closed counting "
+             "abstraction (every schedule shorter than a rank, stuck => converged, converged => quiescent); the "
+             "implementation's convergence, coverage, continued heartbeating and 'no further rebalance' are observed "
+             "for bounded virtual time after a quiet point.",
+        design="0.3/C06",
+        note="trusted: Lean kernel (propext, Classical.choice, Quot.sound); simulated group coordinator (harness/sim); "
+             "probe and field extraction; closed system tied to the member automaton only by bridge lemmas; request "
+             "timeout > rebalance timeout assumed; not generated: pattern subscriptions, unsubscribe(), static membership.",
+        technique="Lean 4 nondeterministic acceptor + simulation proofs + ranking argument; trace validation on the simulator",
+    ),
+    "C19": dict(
+        text="Lean 4 proofs about a model of stop() as a program over wait points with an adversarial environment. The "
+             "consumer's stop() ends within (8+2*nodes)*3*request_timeout + 3*backoff from every position of the "
+             "coordination routine. While closing a commit is attempted once and no coordinator lookup is made. "
+             "Everything the client created is released and later calls return the documented errors. In every accepted "
+             "member history stop() returns only after a LeaveGroup unless the member had no generation or no known "
+             "coordinator. PARTIAL: producer.stop() is bounded only for the plain producer; for the "
+             "idempotent/transactional producer a kernel-checked unbounded witness exists (KNOWN-FINDING). Tie: real "
+             "clients on the simulator, stop() after every k-th trace event of 7 workloads under 8 cluster conditions; "
+             "duration against the Lean bound, leftover tasks/timers/transports, later calls, group membership and the "
+             "closing phase of the member acceptor are checked on every stop.",
+        design="0.3/C19",
+        note="trusted: Lean kernel (+3 standard axioms); harness/sim virtual time (hang = 240 virtual s); owner "
+             "attribution via context variable; the wait-point list is a transcription tied by bound/leftovers/acceptor "
+             "only; MEMBER_ID_REQUIRED at most once per rejoin; user callbacks instantaneous; stop() concurrent with "
+             "start() not explored.",
+        technique="Lean 4 bound/resource proofs over a shutdown program + closing-phase acceptor; trace validation on the simulator",
+    ),
 }
 
 NOT_YET = {}
